@@ -4,6 +4,5 @@ CONSTANTS
   MaxIntr = 0
   ReqArgs = {}
   ChunkArgs = {}
-INVARIANT AbsInv
 POSTCONDITION Accepted
 CHECK_DEADLOCK FALSE
